@@ -57,14 +57,55 @@ static void enumF(int level, const std::function<bool(const CaseText &)> &sink) 
 struct D { int src = 0; cw::W w; pw::FileSpec fs; int batch = 3; uint32_t seed = 1; };   // src 0 = carquet writer, 1 = reference writer (dictionary pages)
 static CaseText serD(const D &d) { CaseText t = d.src == 0 ? cw::ser(d.w) : CaseText(); if (d.src == 1) gf::putSpec(t, d.fs); t.put_i("src", d.src); t.put_i("rbatch", d.batch); t.put_u("dseed", d.seed); return t; }
 static D deD(const CaseText &t) { D d; d.src = (int)t.get_i("src"); d.batch = (int)t.get_i("rbatch"); d.seed = (uint32_t)t.get_u("dseed"); if (d.src == 0) d.w = cw::de(t); else d.fs = gf::getSpec(t); return d; }
+// the last four bytes of a page body chosen so that its CRC-32 equals `target` (CRC is affine in the message: solve the
+// 32x32 system over GF(2) with zlib's crc32 as the only primitive)
+static uint32_t steerLastWord(const Bytes &prefix, uint32_t target) {
+  Bytes z = prefix; z.insert(z.end(), 4, 0);
+  uint32_t d = (uint32_t)crc32(0, z.data(), (uInt)z.size()) ^ target;
+  const uint8_t zero4[4] = {0, 0, 0, 0};
+  uint32_t base = (uint32_t)crc32(0, zero4, 4);
+  uint64_t row[32];   // row i: bit j = coefficient of x_j in output bit i; bit 32 = right-hand side
+  uint32_t col[32];
+  for (int j = 0; j < 32; j++) { uint32_t x = 1u << j; uint8_t b[4] = {(uint8_t)x, (uint8_t)(x >> 8), (uint8_t)(x >> 16), (uint8_t)(x >> 24)}; col[j] = (uint32_t)crc32(0, b, 4) ^ base; }
+  for (int i = 0; i < 32; i++) { uint64_t r = 0; for (int j = 0; j < 32; j++) if (col[j] >> i & 1) r |= 1ull << j; if (d >> i & 1) r |= 1ull << 32; row[i] = r; }
+  uint32_t x = 0; int piv_row[32];
+  int rnk = 0;
+  for (int j = 0; j < 32; j++) {
+    int p = -1; for (int i = rnk; i < 32; i++) if (row[i] >> j & 1) { p = i; break; }
+    if (p < 0) { piv_row[j] = -1; continue; }
+    std::swap(row[rnk], row[p]);
+    for (int i = 0; i < 32; i++) if (i != rnk && (row[i] >> j & 1)) row[i] ^= row[rnk];
+    piv_row[j] = rnk++;
+  }
+  for (int j = 0; j < 32; j++) if (piv_row[j] >= 0 && (row[piv_row[j]] >> 32 & 1)) x |= 1u << j;
+  return x;
+}
 static rc::Gen<D> genD() {
+  // a page whose stored CRC is a chosen value, in particular 0 (a reader that takes 0 for "no checksum" stops verifying)
+  auto steered = rc::gen::exec([]() {   // written by carquet's own writer: one REQUIRED INT32 column, uncompressed, one page = the values
+    cw::W w;
+    w.fs.root.name = "schema"; w.fs.root.group = true;
+    w.fs.root.kids.push_back(gf::leafNode("c0", pq::REQUIRED, pq::INT32, 0));
+    w.codec = 0; w.page_size = 1 << 20; w.order = 1;
+    size_t rows = (size_t)*irange(2, 40);
+    w.fs.rg_rows.push_back((int64_t)rows);
+    pw::ChunkSpec cs; cs.n = rows;
+    Bytes body;
+    for (size_t i = 0; i + 1 < rows; i++) { uint32_t v = *gen::f32bits(); Bytes b = {(uint8_t)v, (uint8_t)(v >> 8), (uint8_t)(v >> 16), (uint8_t)(v >> 24)}; cs.values.push_back(b); body.insert(body.end(), b.begin(), b.end()); }
+    uint32_t target = *rc::gen::element<uint32_t>(0u, 0u, 0u, 1u, 0xffffffffu);
+    uint32_t x = steerLastWord(body, target);
+    cs.values.push_back(Bytes{(uint8_t)x, (uint8_t)(x >> 8), (uint8_t)(x >> 16), (uint8_t)(x >> 24)});
+    pw::PageSpec pg; pg.end = rows; cs.pages.push_back(pg);
+    w.fs.row_groups.push_back({cs}); w.parts.push_back({{(int)rows}}); w.nolevels.push_back({0}); w.extra_nrg.push_back(0);
+    return w;
+  });
   auto small = rc::gen::exec([]() {   // carquet-written: small tables, several pages per chunk via a small page size
     cw::W w;
     gf::Opts o; o.int96 = false; o.max_cols = 3; o.types = {pq::BOOLEAN, pq::INT32, pq::INT64, pq::FLOAT, pq::DOUBLE, pq::BYTE_ARRAY, pq::FIXED_LEN_BYTE_ARRAY};
     w.fs.root = gf::genSchema(o);
     for (size_t i = 0; i < w.fs.root.kids.size(); i++) w.fs.root.kids[i].name = "c" + std::to_string(i);
     auto lv = pw::leaves(w.fs.root);
-    w.codec = *rc::gen::element(0, 0, 1, 2, 5, 6); w.page_size = *rc::gen::element<int64_t>(64, 64, 100, 256); w.order = (uint32_t)*irange(1, 1 << 30);
+    w.codec = *rc::gen::element(0, 0, 1, 2, 5, 6); w.page_size = *rc::gen::element<int64_t>(64, 64, 100, 256); w.order = (uint32_t)*irange(1, 1 << 30); w.opts = *rc::gen::weightedOneOf<int>({{3, rc::gen::just(0)}, {2, irange(0, 15)}}); w.level = *rc::gen::element(0, 0, 1, 9, 19);
     int nrg = *irange(1, 2);
     for (int g = 0; g < nrg; g++) {
       size_t rows = (size_t)*irange(1, 30);
@@ -92,8 +133,9 @@ static rc::Gen<D> genD() {
     for (auto &rg : fs.row_groups) for (size_t k = 0; k < rg.size(); k++) { rg[k].crc = true; if (lvs[k].type == pq::BYTE_ARRAY) for (auto &v : rg[k].values) if (v.size() > 40) v.resize(40); }
     return fs;
   });
-  return rc::gen::mapcat(irange(0, 2), [small, refd](int k) -> rc::Gen<D> {
-    if (k < 2) return rc::gen::map(rc::gen::tuple(small, irange(1, 9), irange(1, 1 << 30)), [](const std::tuple<cw::W, int, int> &t) { D d; d.src = 0; d.w = std::get<0>(t); d.batch = std::get<1>(t); d.seed = (uint32_t)std::get<2>(t); return d; });
+  return rc::gen::mapcat(irange(0, 11), [small, refd, steered](int k) -> rc::Gen<D> {
+    if (k == 11) return rc::gen::map(rc::gen::tuple(steered, irange(1, 9), irange(1, 1 << 30)), [](const std::tuple<cw::W, int, int> &t) { D d; d.src = 0; d.w = std::get<0>(t); d.batch = std::get<1>(t); d.seed = (uint32_t)std::get<2>(t); return d; });
+    if (k % 3 < 2) return rc::gen::map(rc::gen::tuple(small, irange(1, 9), irange(1, 1 << 30)), [](const std::tuple<cw::W, int, int> &t) { D d; d.src = 0; d.w = std::get<0>(t); d.batch = std::get<1>(t); d.seed = (uint32_t)std::get<2>(t); return d; });
     return rc::gen::map(rc::gen::tuple(refd, irange(1, 9), irange(1, 1 << 30)), [](const std::tuple<pw::FileSpec, int, int> &t) { D d; d.src = 1; d.fs = std::get<0>(t); d.batch = std::get<1>(t); d.seed = (uint32_t)std::get<2>(t); return d; });
   });
 }
